@@ -4,6 +4,9 @@ import GlareModel.Core.Util
 import GlareModel.Core.SortKey
 import GlareModel.Core.Arith
 import GlareModel.Core.Cast
+import GlareModel.Core.Sexp
+import GlareModel.Core.Sem
+import GlareModel.Core.SemParse
 import GlareModel.Proofs.SortKey
 import GlareModel.Proofs.SortKeyCol
 import GlareModel.Props.C08
